@@ -2,6 +2,7 @@ package rules
 
 import (
 	"go/token"
+	"go/types"
 	"sort"
 	"strings"
 
@@ -13,7 +14,7 @@ import (
 func init() {
 	Register(&Prop{
 		ID:   "C22",
-		Expl: "Decides the start/stop structure of the retransmitter: (R1) a messages.NewRedundantMessenger (created directly or through a constructor helper that only returns one) is created only in actions that register it with MessengerManager.AddSender before its first send, the registration's error fails the action, and Manager.AddSender stores into its map only on the not-present edge under its lock; (R2) let W be the success target of a retry-sending state: every other state entered from W or from the retry-sending state, and every terminal state, has an outermost action that calls MessengerManager.RemoveSender with the swap id (directly or through a helper that does so on all of its paths) on every path before it returns; (R3) RemoveSender stops the registered sender, Stop closes the channel on which the sender goroutine's select returns, and only the ticker arm sends; (R4) no other action or recovery path adds a sender.",
+		Expl: "Decides the start/stop structure of the retransmitter: (R1) a messages.NewRedundantMessenger (created directly or through a constructor helper that only returns one) is created only in actions that register it with MessengerManager.AddSender before its first send, the registration's error fails the action, and Manager.AddSender stores into its map only on the not-present edge under its lock; (R2) let W be the success target of a retry-sending state: every other state entered from W or from the retry-sending state, and every terminal state, has an outermost action that calls MessengerManager.RemoveSender with the swap id (directly or through a helper that does so on all of its paths) on every path before it returns; (R3) RemoveSender stops the registered sender, Stop closes the channel on which the sender goroutine's select returns, only the ticker arm sends, and that channel cannot be replaced under the running goroutine: the goroutine holds the channel value itself, or the field it re-reads on every pass is written only when the messenger is built or before the go statement; (R4) no other action or recovery path adds a sender.",
 		NotD: "How many already-due ticks race with Stop at run time (at most one by the select structure); timing.",
 		Run:  runC22,
 	})
@@ -389,6 +390,13 @@ func runC22(c *an.Check) {
 			}
 		}
 		nGo := 0
+		var goSites []*ssa.Go
+		type c22StopSel struct {
+			g   *ssa.Function
+			sel *ssa.Select
+			ch  ssa.Value
+		}
+		var stopSels []c22StopSel
 		starters := []*ssa.Function{rmSend}
 		for _, ef := range w.Summary(rmSend).Effects {
 			if ef.Info.Static != nil && !strings.HasPrefix(ef.Name, "go:") && w.InModule(ef.Info.Static) {
@@ -399,6 +407,7 @@ func runC22(c *an.Check) {
 			for _, call := range an.Calls(sf) {
 				if g, isGo := call.(*ssa.Go); isGo {
 					nGo++
+					goSites = append(goSites, g)
 					addBody(g.Common().StaticCallee(), 0)
 				}
 			}
@@ -416,8 +425,13 @@ func runC22(c *an.Check) {
 					}
 					stopIdx := -1
 					for i, st := range sel.States {
-						if st.Dir == 2 /* types.RecvOnly */ && closed != "" && w.Term(st.Chan) == closed {
+						if st.Dir != 2 /* types.RecvOnly */ || closed == "" {
+							continue
+						}
+						if w.Term(st.Chan) == closed {
 							stopIdx = i
+						} else if v := c22CapturedOnce(st.Chan); v != nil && w.Term(v) == closed {
+							stopIdx = i // a local copy of the channel, captured by the closure
 						}
 					}
 					if stopIdx < 0 {
@@ -426,6 +440,7 @@ func runC22(c *an.Check) {
 						}
 						continue
 					}
+					stopSels = append(stopSels, c22StopSel{g, sel, sel.States[stopIdx].Chan})
 					// the stop arm must reach a return without reaching a send or the select again
 					v, y := c22StopArmReturns(w, g, sel, stopIdx)
 					if v == -1 || verdict == 0 {
@@ -442,6 +457,19 @@ func runC22(c *an.Check) {
 			c.Bad("C22.R3", cons, w.Pos(rmSend.Pos()), why)
 		default:
 			c.Unknown("C22.R3", cons, w.Pos(rmSend.Pos()), why)
+		}
+		// the channel the goroutine waits on is, for its whole life, the object Stop closes
+		for _, ss := range stopSels {
+			v, y := c22StopChannelStable(w, ss.sel, ss.ch, goSites)
+			cons := "(*messages.RedundantMessenger).SendMessage stop-channel-stable"
+			switch v {
+			case 1:
+				c.OK("C22.R3", cons, w.Pos(ss.sel.Pos()), y)
+			case -1:
+				c.Bad("C22.R3", cons, w.Pos(ss.sel.Pos()), y)
+			default:
+				c.Unknown("C22.R3", cons, w.Pos(ss.sel.Pos()), y)
+			}
 		}
 	}
 
@@ -845,4 +873,163 @@ func c22StopArmReturns(w *an.World, g *ssa.Function, sel *ssa.Select, stopIdx in
 		return -1, "the stop arm does not return"
 	}
 	return 1, ""
+}
+
+// c22StopChannelStable: the channel on which the sender goroutine's select waits
+// for the stop signal cannot be replaced while the goroutine runs. Either the
+// goroutine holds the channel value itself (captured before its loop, a
+// parameter or a closure variable), or it re-reads a field on every pass and
+// that field is written only when the object is built (store into a freshly
+// allocated object) or before the `go` statement of the function that starts the
+// goroutine: 1 yes, -1 another function writes the field, 0 cannot trace.
+func c22StopChannelStable(w *an.World, sel *ssa.Select, ch ssa.Value, goSites []*ssa.Go) (int, string) {
+	inLoop := func(b *ssa.BasicBlock) bool {
+		fromSel := an.ReachBlocks(sel.Block().Succs, nil, nil)
+		if !fromSel[sel.Block()] || !fromSel[b] {
+			return false // the select is not in a loop, or b is not reached again after it
+		}
+		return an.ReachBlocks(b.Succs, nil, nil)[sel.Block()] || b == sel.Block()
+	}
+	var fa *ssa.FieldAddr
+	switch x := ch.(type) {
+	case *ssa.Parameter:
+		return 1, "the goroutine receives the channel value as a parameter: it cannot be replaced under it"
+	case *ssa.FreeVar:
+		if _, isPtr := x.Type().Underlying().(*types.Pointer); isPtr {
+			return 0, "the stop channel is a variable captured by reference: its writers were not traced"
+		}
+		return 1, "the goroutine captured the channel value before it started: it cannot be replaced under it"
+	case *ssa.UnOp:
+		if x.Op != token.MUL {
+			return 0, "the stop channel of the select is computed in a way that was not traced"
+		}
+		if c22CapturedOnce(x) != nil {
+			return 1, "the goroutine waits on a local copy of the channel that is assigned once, before the goroutine starts"
+		}
+		f, ok := x.X.(*ssa.FieldAddr)
+		if !ok {
+			return 0, "the stop channel is loaded from something other than a struct field: not traced"
+		}
+		if !inLoop(x.Block()) {
+			return 1, "the goroutine reads the channel field once, before its loop"
+		}
+		fa = f
+	default:
+		return 0, "the stop channel of the select is computed in a way that was not traced"
+	}
+	key := an.FieldName(fa.X.Type(), fa.Field)
+	var bad []string
+	n := 0
+	for _, st := range w.FieldWriters(key) {
+		fn := st.Parent()
+		if an.IsTestSupport(w.FnRel(fn)) || isDummy(w, fn) {
+			continue
+		}
+		n++
+		sfa, ok := st.Addr.(*ssa.FieldAddr)
+		if !ok {
+			return 0, "a store to " + key + " in " + w.FuncName(fn) + " could not be interpreted"
+		}
+		if _, fresh := sfa.X.(*ssa.Alloc); fresh {
+			continue // initialisation of a newly built object
+		}
+		// initialisation that precedes the `go` statement in the starting function
+		before := false
+		for _, g := range goSites {
+			if g.Parent() != fn {
+				continue
+			}
+			after := an.ReachFromInstr(g)[st.Block()] || (g.Block() == st.Block() && an.InstrIndex(st) > an.InstrIndex(g))
+			if !after && an.MustPassInstr(g, []ssa.Instruction{st}) {
+				before = true
+			}
+		}
+		if before {
+			continue
+		}
+		bad = append(bad, w.FuncName(fn)+" ("+w.Pos(st.Pos())+")")
+	}
+	if len(bad) > 0 {
+		sort.Strings(bad)
+		return -1, "the sender goroutine re-reads the field " + key + " on every pass through its select, and " + strings.Join(bad, ", ") + " stores a new channel into it: a goroutine that is busy sending while that store runs comes back to a fresh, open channel, never sees the close and retransmits forever although the manager dropped the sender"
+	}
+	if n == 0 {
+		return 0, "no store to " + key + " found: where the channel is created was not traced"
+	}
+	return 1, "the field " + key + " is written only when the messenger is built (or before the go statement)"
+}
+
+// c22CapturedOnce: v is the load of a closure variable (captured by reference)
+// that is assigned exactly once in the enclosing function; returns the assigned
+// value, else nil.
+func c22CapturedOnce(v ssa.Value) ssa.Value {
+	ld, ok := v.(*ssa.UnOp)
+	if !ok || ld.Op != token.MUL {
+		return nil
+	}
+	fv, ok := ld.X.(*ssa.FreeVar)
+	if !ok {
+		return nil
+	}
+	fn := fv.Parent()
+	idx := -1
+	for i, x := range fn.FreeVars {
+		if x == fv {
+			idx = i
+		}
+	}
+	par := fn.Parent()
+	if par == nil || idx < 0 {
+		return nil
+	}
+	var al *ssa.Alloc
+	for _, b := range par.Blocks {
+		for _, in := range b.Instrs {
+			if mc, ok := in.(*ssa.MakeClosure); ok && mc.Fn == fn && idx < len(mc.Bindings) {
+				a, ok := mc.Bindings[idx].(*ssa.Alloc)
+				if !ok || (al != nil && al != a) {
+					return nil
+				}
+				al = a
+			}
+		}
+	}
+	if al == nil || al.Referrers() == nil {
+		return nil
+	}
+	var val ssa.Value
+	for _, r := range *al.Referrers() {
+		switch x := r.(type) {
+		case *ssa.Store:
+			if x.Addr != al || val != nil {
+				return nil
+			}
+			val = x.Val
+		case *ssa.MakeClosure, *ssa.UnOp, *ssa.DebugRef:
+		default:
+			return nil // address escapes
+		}
+	}
+	// other closures must not write it either
+	for _, af := range par.AnonFuncs {
+		for i, b := range af.FreeVars {
+			_ = i
+			if b.Referrers() == nil {
+				continue
+			}
+			for _, r := range *b.Referrers() {
+				if st, ok := r.(*ssa.Store); ok && st.Addr == ssa.Value(b) {
+					// a closure stores into one of its captured variables: is it ours?
+					for _, pb := range par.Blocks {
+						for _, in := range pb.Instrs {
+							if mc, ok := in.(*ssa.MakeClosure); ok && mc.Fn == af && i < len(mc.Bindings) && mc.Bindings[i] == ssa.Value(al) {
+								return nil
+							}
+						}
+					}
+				}
+			}
+		}
+	}
+	return val
 }
